@@ -4,7 +4,7 @@ CONSTANTS
   PathOrder <- StdPathOrder
   IgnoreVocab <- StdIgnoreVocab
   Bug = "none"
-  MaxSteps = 6
+  MaxSteps = 5
   MaxEditRun = 2
   Acts = {"Write", "Symlink", "FileToDir", "DirToFile", "Delete", "CheckOut", "Snapshot"}
   EditPaths <- AllEditPaths
